@@ -71,6 +71,12 @@ func genC18(r *gen.Rand) *C18Case {
 	c.Benign = r.Chance(0.3)
 	// where a reference points: outside (attack) or to the inside twin
 	rootSpelling := r.Intn(6)
+	if !c.Benign && r.Chance(0.1) {
+		// (attack runs only: with the root spelled through a link, bkl refuses
+		// inputs and parents that are spelled through the real directory —
+		// over-cautious, not a leak — so a benign twin has nothing to say)
+		rootSpelling = 7
+	}
 	abs := func(p string) string { return "@ABS@/" + p } // resolved at materialisation time
 	input := "in.yaml"
 	extraInput := "" // a second command-line input, spelled relative to the root like the first
@@ -304,6 +310,15 @@ func genC18(r *gen.Rand) *C18Case {
 		rootArg, inputArg = "/", "root/"+input
 		c.RootAll = true
 		c.NeedsOutside = false
+	case 7:
+		// the root reached through a link to it (relative, or — attack runs
+		// only, os.Root refuses those outright — absolute)
+		if r.Chance(0.5) {
+			w.Links = append(w.Links, procsim.Link{Path: "W/rl", Target: "root"})
+		} else {
+			w.Links = append(w.Links, procsim.Link{Path: "W/rl", Target: abs(c18Root)})
+		}
+		rootArg, inputArg = "rl", r.Pick("rl/", "root/")+input
 	case 6:
 		// sub-directory root: outside = the rest of W/root
 		c.Cwd = c18Root
@@ -316,7 +331,7 @@ func genC18(r *gen.Rand) *C18Case {
 	if extraInput != "" {
 		c.Args = append(c.Args, strings.TrimSuffix(inputArg, input)+extraInput)
 	}
-	if !c.RootAll && !c.API && extraInput == "" && r.Chance(0.25) {
+	if !c.RootAll && !c.API && extraInput == "" && rootSpelling != 7 && r.Chance(0.25) {
 		// the same confinement reached through nested SetRoot calls on the library
 		c.API = true
 		c.Input = inputArg
